@@ -142,6 +142,28 @@ theorem commits_partial (b : Block) :
   · exact fun pre post t v hb h => Classical.byContradiction fun hv => tamper_output H Hmb hH b pre post t v hb hv h
   · exact fun m m' hb h => Classical.byContradiction fun hv => tamper_magicBlock_hash H Hmb hH b m m' hb hv h
 
+/-! `binds_<field>`: one name per effect-relevant field the property lists, each resting on a membership fact
+decided against the GENERATED term list (inside the `tamper_*` proofs). -/
+theorem binds_generator (b : Block) (v : Str) (hv : v ≠ b.str .minerID) :
+    computeHash T H Hmb (b.setStr .minerID v) ≠ computeHash T H Hmb b := tamper_minerID H Hmb hH b v hv
+theorem binds_parent (b : Block) (v : Str) (hv : v ≠ b.str .prevHash) :
+    computeHash T H Hmb (b.setStr .prevHash v) ≠ computeHash T H Hmb b := tamper_prevHash H Hmb hH b v hv
+theorem binds_round (b : Block) (v : Int) (hv : v ≠ b.int .round) :
+    computeHash T H Hmb (b.setInt .round v) ≠ computeHash T H Hmb b := tamper_round H Hmb hH b v hv
+theorem binds_randomSeed (b : Block) (v : Int) (hv : v ≠ b.int .roundRandomSeed) :
+    computeHash T H Hmb (b.setInt .roundRandomSeed v) ≠ computeHash T H Hmb b := tamper_roundRandomSeed H Hmb hH b v hv
+theorem binds_transaction (b : Block) (pre post : List Txn) (t : Txn) (v : Str) (hb : b.txns = pre ++ t :: post)
+    (hv : v ≠ t.hash) :
+    computeHash T H Hmb (b.setTxns (pre ++ { t with hash := v } :: post)) ≠ computeHash T H Hmb b :=
+  tamper_txn H Hmb hH b pre post t v hb hv
+theorem binds_output (b : Block) (pre post : List Txn) (t : Txn) (v : Str) (hb : b.txns = pre ++ t :: post)
+    (hv : v ≠ t.outputHash) :
+    computeHash T H Hmb (b.setTxns (pre ++ { t with outputHash := v } :: post)) ≠ computeHash T H Hmb b :=
+  tamper_output H Hmb hH b pre post t v hb hv
+theorem binds_magicBlock (b : Block) (m m' : MB) (hb : b.magicBlock = some m) (hv : mbHash Hmb m' ≠ mbHash Hmb m) :
+    computeHash T H Hmb { b with magicBlock := some m' } ≠ computeHash T H Hmb b :=
+  tamper_magicBlock_hash H Hmb hH b m m' hb hv
+
 end tamper
 
 /-! ## the hash determines the contents (collision form, with honest side conditions)
